@@ -624,11 +624,14 @@ def typearg_faults(doc):
                 continue                       # class Name<T>
             j = doc.tmatch[i]
             ins = T[j].start
-            out.append(_mut(doc, 'typearg-arity:+1', ins, ins, ', int', 'one more type argument for ' + p.text))
+            # inside the type arguments of another type? (validated by a recursive call of its own in the checker)
+            nested = any(T[a].text == '<' and a < i and doc.tmatch[a] > j for a in doc.tmatch)
+            sfx = '-nested' if nested else ''
+            out.append(_mut(doc, 'typearg-arity:+1' + sfx, ins, ins, ', int', 'one more type argument for ' + p.text))
             is_annotation = not (i >= 2 and T[i - 2].text == '.')
             c = doc.classes.get(p.text)
             if is_annotation and c and c['tparams'] and not (j + 1 < len(T) and T[j + 1].text == '('):
-                out.append(_mut(doc, 'typearg-arity:dropped', T[i].start, T[j].end, '', 'type arguments of %s dropped' % p.text))
+                out.append(_mut(doc, 'typearg-arity:dropped' + sfx, T[i].start, T[j].end, '', 'type arguments of %s dropped' % p.text))
     for call in call_sites(doc):
         if T[call['open'] - 1].text == '>':
             continue
@@ -803,10 +806,12 @@ def bound_faults(doc, non_impl=None):
                 if i >= 1 and T[i - 1].text == '.':
                     continue
                 items = doc.split_commas(i + 2, doc.tmatch[i + 1])
+                nested = any(T[x].text == '<' and x < i and doc.tmatch[x] > doc.tmatch[i + 1] for x in doc.tmatch)
                 for k in bounded[t.text]:
                     if k < len(items):
                         a, b = items[k]
-                        out.append(_tok_mut(doc, 'bound:annotation', a, b, non_impl[1], 'bounded type argument of %s replaced by %s' % (t.text, non_impl[1])))
+                        out.append(_tok_mut(doc, 'bound:annotation' + ('-nested' if nested else ''), a, b, non_impl[1],
+                                            'bounded type argument of %s replaced by %s' % (t.text, non_impl[1])))
     return out
 
 
@@ -931,10 +936,14 @@ EXTRA_DECLS = '''interface Hv { method hv(k: int): int method hw(): bool }
 class Ha(val v: int) : Hv { method hv(k: int): int = this.v + k method hw(): bool = this.v > 0 }
 class Nb(val q: int) { method hv(k: int): int = k }
 class Bx<T: Hv>(val x: T) { method run(): int = this.x.hv(1) }
+class Wr<T>(val w: T) {}
 '''
 EXTRA_MEMBERS = '''  function <T: Hv> useHv(x: T, k: int): int = if x.hw() { x.hv(k) } else { 0 }
   function hy(b: Bx<Ha>): int = b.run()
-  function hx(): int = Main.useHv(Ha.init(2), 3) + Bx.init(Ha.init(1)).run() + HPub.pub(1) + HPub.mk(3).open() + HPub.mk(4).a + Main.hy(Bx.init(Ha.init(4))) + HUser.viaPrivateClass()
+  function hz(b: Wr<Bx<Ha>>): int = b.w.run()
+  function hu(b: Wr<Bx<Ha>>, c: Wr<Wr<Bx<Ha>>>): int = 0
+  function hf(f: (Wr<Bx<Ha>>) -> int): int = f(Wr.init(Bx.init(Ha.init(1))))
+  function hx(): int = Main.useHv(Ha.init(2), 3) + Bx.init(Ha.init(1)).run() + HPub.pub(1) + HPub.mk(3).open() + HPub.mk(4).a + Main.hy(Bx.init(Ha.init(4))) + Main.hz(Wr.init(Bx.init(Ha.init(5)))) + Main.hf((w) -> w.w.run()) + HUser.viaPrivateClass()
 '''
 PRIVATE_EDITS = [
     ('private:function', 'HPub.pub(1)', 'HPub.hiddenFunction(1)', 'call of a private function of another module'),
@@ -1028,3 +1037,37 @@ def all_faults(text, profile='generated'):
 
 def family(kind):
     return kind.split(':')[0]
+
+
+# ------------------------------------------------------------------------------------------------
+# private members reached from a class that merely has the SAME NAME in another module
+
+SAME_NAME_LIB = '''class A(val pub: int, private val secret: int) {
+  function mk(): A = A.init(1, 42)
+  private method hidden(): int = this.secret
+  method open(): int = this.hidden()
+}
+class Give { function it(): A = A.mk() }
+'''
+
+SAME_NAME_ACCESSES = [
+    ('private:same-name-class:field', 'Give.it().secret'),
+    ('private:same-name-class:method', 'Give.it().hidden()'),
+    ('private:same-name-class:object-pattern', '{ let { secret } = Give.it(); secret }'),
+    ('private:same-name-class:object-pattern-as', '{ let { secret as s, pub as _ } = Give.it(); s }'),
+    ('private:same-name-class:tuple-pattern', '{ let (p, s) = Give.it(); s }'),
+]
+
+
+def same_name_private_programs():
+    """Module X1 declares class A with private members; Main declares its own, unrelated class A and reaches X1.A's private
+    members through a value. Every one must be rejected with an error in Main."""
+    out = []
+    for kind, access in SAME_NAME_ACCESSES:
+        main = ('import { Give } from X1;\nclass A { function peek(): int = %s }\n'
+                'class Main { function main(): unit = Process.println(Str.fromInt(A.peek())) }\n' % access)
+        out.append((kind, {'sources': {'X1': SAME_NAME_LIB, 'Main': main}, 'entry': 'Main', 'mutated': 'Main'}))
+    # control: the public members are reachable (an accepted program), so the rejections above are about privacy
+    ok = ('import { Give } from X1;\nclass A { function peek(): int = Give.it().pub + Give.it().open() }\n'
+          'class Main { function main(): unit = Process.println(Str.fromInt(A.peek())) }\n')
+    return out, {'sources': {'X1': SAME_NAME_LIB, 'Main': ok}, 'entry': 'Main'}
